@@ -96,6 +96,10 @@ OffColSum(B, n, j) == SumOver(LAMBDA i : IF i - 1 = j THEN 0 ELSE Abs(At(B, n, i
 DiagDominant(B, n) == \A i \in 0..(n - 1) : Abs(At(B, n, i, i)) > OffRowSum(B, n, i) /\ Abs(At(B, n, i, i)) > OffColSum(B, n, i)
 LUCertificate(B, n, L0, U0) == /\ IsUnitLowerInt(L0, n, 1) /\ IsUpperInt(U0, n) /\ NonzeroDiag(U0, n)
                                /\ Prod(L0, U0, n, n, n) = B
+\* non-singularity certificate of A = H diag(dg) H:  H H is a positive diagonal matrix (H is invertible) and no dg[i] is zero
+HDHCertificate(A, n, H, dg) == /\ LET HH == Prod(H, H, n, n, n) IN \A i, j \in 0..(n - 1) : IF i = j THEN At(HH, n, i, j) > 0 ELSE At(HH, n, i, j) = 0
+                               /\ \A i \in 0..(n - 1) : dg[i] # 0
+                               /\ A = Prod([q \in 1..(n * n) |-> H[q] * dg[(q - 1) % n]], H, n, n, n)
 \* cert = [kind |-> "dd"] or [kind |-> "lu", L0 |-> .., U0 |-> ..]
 NoPivotDomain(B, n, cert) == IF cert.kind = "dd" THEN DiagDominant(B, n) ELSE LUCertificate(B, n, cert.L0, cert.U0)
 (* Domain of the PIVOTED strategies: the row-pre-pivoted matrix is in the no-pivot domain.               *)
@@ -112,6 +116,10 @@ JudgeRatio(ratio_milli, C) == ratio_milli >= 0 /\ ratio_milli <= 1000 * C
 CondMax == 10000                 \* cond_inf(A)
 GrowthMax == 16                  \* || |L||U| ||_inf / ||A||_inf of the reference (no-pivot) factors of the pivoted input
 InDomain(cond_milli, growth_milli) == cond_milli <= 1000 * CondMax /\ growth_milli <= 1000 * GrowthMax
+\* QR (C13: "condition number up to a moderate limit"): eps cond <= about 2e-8 in double (cond <= 1e8), as above in float.
+\* cond_k = ceil(cond_inf / 1000) (the milli scale saturates at cond = 1e6)
+QRCondMaxK(T) == IF T = "f64" THEN 100000 ELSE CondMax \div 1000
+QRInDomain(T, cond_k) == cond_k <= QRCondMaxK(T)
 
 -----------------------------------------------------------------------------------------------------
 (* Exact identities on dyadic images.  X = Xs / 2^xs etc.; A stands for A / 2^sA.                      *)
